@@ -14,7 +14,7 @@ rsync -a --exclude .git --exclude .coverage --exclude coverage.xml --exclude _se
 BASELINE_TIMEOUT=60 timeout 600 "$VERIF/selftest/baseline.py" "$W/repo" | head -3
 echo "full suite from tests/: $(timeout 900 "$VERIF/selftest/fulltests.sh" "$W/repo" | tail -3 | tr '\n' ' ' | cut -c1-250)"
 for P in $CHECKS; do
-  out="$(cd "$VERIF" && VERIF_REPO="$W/repo" VERIF_NO_EVIDENCE=1 VERIF_CALL_TIMEOUT=30 timeout 1500 ./check "$P" "${TIER:-quick}" 2>&1)"; rc=$?
+  out="$(cd "$VERIF" && VERIF_REPO="$W/repo" VERIF_NO_EVIDENCE=1 VERIF_CALL_TIMEOUT=${VERIF_CALL_TIMEOUT:-120} timeout 2400 ./check "$P" "${TIER:-quick}" 2>&1)"; rc=$?
   case $rc in
     1) echo "KILLED   $P  $(echo "$out" | grep -m1 '^violation' | cut -c1-260)";;
     0) echo "SURVIVED $P";;
